@@ -1,6 +1,7 @@
 package main
 
 import (
+	"fmt"
 	"strings"
 	"sync"
 	"time"
@@ -12,21 +13,24 @@ import (
 //
 // Real goroutines under faketime; the orchestrator performs the k-th action at virtual instant
 // (k+1)*step, so producer / consumer / close order is the script's. Actions:
-//   P<i>:h:<r>:<e>:<dur>   producer i calls SendCallback(handler returning (r,e) after dur ns)
-//   P<i>:n                 producer i calls SendCallback(nil)
-//   P<i>:t:<r>:<e>:<dur>   producer i calls SendTask(user task whose Do returns e after dur ns)
-//   P<i>:z                 producer i calls SendTask(nil)
-//   R                      the consumer tries to receive ONE task from Queue.C and executes it once
-//   C                      close the close channel
-//   G<1|2>:<i>:<j>         start a goroutine calling Get1 / Get2 on what producer i's j-th call returned
+//
+//	P<i>:h:<r>:<e>:<dur>   producer i calls SendCallback(handler returning (r,e) after dur ns)
+//	P<i>:n                 producer i calls SendCallback(nil)
+//	P<i>:t:<r>:<e>:<dur>   producer i calls SendTask(user task whose Do returns e after dur ns)
+//	P<i>:z                 producer i calls SendTask(nil)
+//	R                      the consumer tries to receive ONE task from Queue.C and executes it once
+//	C                      close the close channel
+//	G<1|2>:<i>:<j>         start a goroutine calling Get1 / Get2 on what producer i's j-th call returned
+//
 // "blocked" = has not returned when the script is over (the clock advanced past every later
 // instant). Log (virtual ns since the scenario start):
-//   c:<i>:<j>:<t> call   r:<i>:<j>:<t>:<E|N|T> return (taskEmpty / nil / a task)   b:<i>:<t> producer busy, action skipped
-//   R:<t>:<got|empty|busy>   x:<i>:<j>:<t> handler/Do of task (i,j) starts   y:<i>:<j>:<t> it ends   d:<t> Do returned
-//   g:<k>:<t0>:<t1>:<r>:<e>  getter of action k started at t0, returned (r,e) at t1 (t1=-1: still blocked at the end)
-//   g:<k>:noref              the call has not returned a task yet
-//   L:<t>:<len>              len(Queue.C) observed by the orchestrator before the action at t
-//   END:<t>  then the cleanup phase: Z:<i>:<j> tasks still buffered, in channel order
+//
+//	c:<i>:<j>:<t> call   r:<i>:<j>:<t>:<E|N|T> return (taskEmpty / nil / a task)   b:<i>:<t> producer busy, action skipped
+//	R:<t>:<got|empty|busy>   x:<i>:<j>:<t> handler/Do of task (i,j) starts   y:<i>:<j>:<t> it ends   d:<t> Do returned
+//	g:<k>:<t0>:<t1>:<r>:<e>  getter of action k started at t0, returned (r,e) at t1 (t1=-1: still blocked at the end)
+//	g:<k>:noref              the call has not returned a task yet
+//	L:<t>:<len>              len(Queue.C) observed by the orchestrator before the action at t
+//	END:<t>  then the cleanup phase: Z:<i>:<j> tasks still buffered, in channel order
 func init() { register("c09", runC09) }
 
 type userTask struct {
@@ -62,7 +66,18 @@ func runC09(toks []string) string {
 	base := time.Now().UnixNano()
 	lg := &tlog{base: base}
 	closeCh := make(chan struct{})
-	q := taskx.NewQueue(taskx.WithSize(size), taskx.WithCloseChan(closeCh), taskx.WithErrorLogger(func(string, ...any) {}))
+	// the error-logger option varies with the script (its observable behaviour must not): a function, the option
+	// left out (default logger, writes to stderr), or WithErrorLogger(nil)
+	qopts := []taskx.Option{taskx.WithSize(size), taskx.WithCloseChan(closeCh)}
+	switch (size + nprod + len(acts)) % 4 {
+	case 0:
+		qopts = append(qopts, taskx.WithErrorLogger(nil))
+	case 1:
+	default:
+		qopts = append(qopts, taskx.WithErrorLogger(func(string, ...any) {}))
+	}
+	q := taskx.NewQueue(qopts...)
+	var panicMsg string
 
 	var mu sync.Mutex
 	busy := make([]bool, nprod)
@@ -89,30 +104,41 @@ func runC09(toks []string) string {
 				lg.add("c", i, j, lg.now())
 				var ret taskx.Task
 				kind := "T"
-				switch c.kind {
-				case 'h':
-					c := c
-					ret = q.SendCallback(func(args any) (any, error) {
-						lg.add("x", i, j, lg.now())
-						sleepFor(c.dur)
-						lg.add("y", i, j, lg.now())
-						return mkVal(c.r), mkErr(c.e)
-					})
-				case 'n':
-					ret = q.SendCallback(nil)
-					kind = "E"
-				case 't':
-					c := c
-					ret = q.SendTask(&userTask{do: func() error {
-						lg.add("x", i, j, lg.now())
-						sleepFor(c.dur)
-						lg.add("y", i, j, lg.now())
-						return mkErr(c.e)
-					}})
-				case 'z':
-					ret = q.SendTask(nil)
-					kind = "N"
-				}
+				func() {
+					defer func() {
+						if r := recover(); r != nil {
+							mu.Lock()
+							if panicMsg == "" {
+								panicMsg = fmt.Sprintf("PANIC producer %d call %d (%c) at %d: %v", i, j, c.kind, lg.now(), r)
+							}
+							mu.Unlock()
+						}
+					}()
+					switch c.kind {
+					case 'h':
+						c := c
+						ret = q.SendCallback(func(args any) (any, error) {
+							lg.add("x", i, j, lg.now())
+							sleepFor(c.dur)
+							lg.add("y", i, j, lg.now())
+							return mkVal(c.r), mkErr(c.e)
+						})
+					case 'n':
+						ret = q.SendCallback(nil)
+						kind = "E"
+					case 't':
+						c := c
+						ret = q.SendTask(&userTask{do: func() error {
+							lg.add("x", i, j, lg.now())
+							sleepFor(c.dur)
+							lg.add("y", i, j, lg.now())
+							return mkErr(c.e)
+						}})
+					case 'z':
+						ret = q.SendTask(nil)
+						kind = "N"
+					}
+				}()
 				if kind == "E" {
 					// taskEmpty: already completed, Get2 = (nil, nil), Do is a no-op
 					r, e := ret.Get2()
@@ -262,6 +288,12 @@ func runC09(toks []string) string {
 		if !b {
 			close(cmds[i])
 		}
+	}
+	mu.Lock()
+	pm := panicMsg
+	mu.Unlock()
+	if pm != "" {
+		return strings.ReplaceAll(pm, "\n", " ")
 	}
 	return lg.String()
 }
